@@ -38,6 +38,7 @@ var (
 	vReached  = map[string]int{}
 	vObserved []string
 	vKnownSet = map[string]bool{}
+	vSkipped  bool // an assumption failed somewhere: the vector is outside the harness's domain
 )
 
 type vStop struct{ id string }
@@ -51,6 +52,7 @@ func VerifNativeInit() {
 	vFailed, vObserved = nil, nil
 	vReached = map[string]int{}
 	vKnownSet = map[string]bool{}
+	vSkipped = false
 	if p := os.Getenv("VERIF_REPLAY"); p != "" {
 		b, err := os.ReadFile(p)
 		if err != nil {
@@ -79,7 +81,31 @@ func VerifNativeRun(f func()) (failed []string, panicked interface{}) {
 		}()
 		f()
 	}()
-	<-done
+	start := time.Now()
+	var skippedAt time.Time
+wait:
+	for {
+		select {
+		case <-done:
+			break wait
+		case <-time.After(50 * time.Millisecond):
+		}
+		vMu.Lock()
+		sk := vSkipped
+		vMu.Unlock()
+		if sk {
+			if skippedAt.IsZero() {
+				skippedAt = time.Now()
+			} else if time.Since(skippedAt) > time.Second {
+				break wait // the harness left its domain and its main goroutine is stuck
+			}
+		}
+		if time.Since(start) > 60*time.Second {
+			vMu.Lock()
+			defer vMu.Unlock()
+			return append([]string{}, vFailed...), "native run did not finish within 60 s"
+		}
+	}
 	vMu.Lock()
 	defer vMu.Unlock()
 	return append([]string{}, vFailed...), panicked
@@ -154,11 +180,22 @@ func vChoice(name string, n int) int {
 	return vRand.Intn(n)
 }
 
-// vAssume: native runs skip vectors that violate an assumption.
+// vAssume: native runs skip vectors that violate an assumption. The calling goroutine ends
+// (it may be any goroutine of the harness); later assertion failures of the run are ignored.
 func vAssume(cond bool) {
 	if !cond {
-		panic(vStop{id: "assume"})
+		vMu.Lock()
+		vSkipped = true
+		vMu.Unlock()
+		runtime.Goexit()
 	}
+}
+
+// VerifNativeSkipped reports whether the last native run left the harness's domain.
+func VerifNativeSkipped() bool {
+	vMu.Lock()
+	defer vMu.Unlock()
+	return vSkipped
 }
 
 func vAssert(cond bool, id string) {
@@ -170,6 +207,10 @@ func vAssert(cond bool, id string) {
 
 func vFail(id string) {
 	vMu.Lock()
+	if vSkipped {
+		vMu.Unlock()
+		runtime.Goexit()
+	}
 	if len(vKnownSet) > 0 {
 		// inside the region of a known finding: reported separately, not a failure of the run
 		ids := ""
@@ -178,12 +219,12 @@ func vFail(id string) {
 		}
 		vMu.Unlock()
 		fmt.Printf("VERIF-KNOWN %s: %s\n", ids, id)
-		panic(vStop{id: "known"})
+		runtime.Goexit()
 	}
 	vFailed = append(vFailed, id)
 	vMu.Unlock()
 	fmt.Printf("VERIF-ASSERT-FAILED %s\n", id)
-	panic(vStop{id: id})
+	runtime.Goexit()
 }
 
 func vReach(label string) {
